@@ -8,6 +8,8 @@
                                                                         transparent, except `Option::None` = no readings
                 | tp                                                    `TraceparentCtxt<ThreadLocalCtxt>`: same records on
                                                                         the class `tpClass`; other cases are rejected (bad-op)
+    (c04 tp (incoming) (T…) (header TRACE SPAN FLAGS push|push2)): the incoming ids arrive as a W3C traceparent with a
+                  sampled (odd) flags byte, pushed with `Traceparent::push` / `emit_traceparent::push(tp, tracestate)`
       IDVAL ::= (trace N) | (span N) | (num N) | (text xHEX)
       T ::= (event EID (props (xKEY IDVAL)…)) | (cur CID)
           | (span ID KIND EN RT RS (props (xKEY IDVAL)…) T…)    KIND ::= sync|newspan|direct|async|anewspan|adirect
@@ -153,6 +155,17 @@ def runC04 (line : String) : String :=
   let parsed := match Sexp.parse line with
     | some (.list [.atom "c04", inc, .list ts]) => some ("concrete", RngHolder.ref, inc, ts)
     | some (.list [.atom "c04", .atom v, inc, .list ts]) => (rngHolder? v).map fun h => (v, h, inc, ts)
+    -- the incoming ids as a sampled W3C traceparent pushed with `Traceparent::push` / `emit_traceparent::push`
+    -- (under `tp`, instead of incoming props): the same as the two ids pushed as typed props
+    | some (.list [.atom "c04", .atom "tp", .list [.atom "incoming"], .list ts, .list [.atom "header", tr, sp, fl, .atom via]]) =>
+      match tr.nat?, sp.nat?, fl.nat? with
+      | some tr, some sp, some fl =>
+        if (via == "push" || via == "push2") && 0 < tr && tr < 2 ^ 128 && 0 < sp && sp < 2 ^ 64 && fl < 256 && fl % 2 == 1 then
+          some ("tp", RngHolder.ref,
+            Sexp.list [.atom "incoming", .list [.atom (atomOfString "trace_id"), .list [.atom "trace", .atom (toString tr)]],
+                                         .list [.atom (atomOfString "span_id"), .list [.atom "span", .atom (toString sp)]]], ts)
+        else none
+      | _, _, _ => none
     | _ => none
   match parsed with
   | some (v, h, inc, ts) =>
